@@ -7,6 +7,7 @@
 //!                          get_magic_num_from_bytes of those bytes
 //!   (2 minor idx arg)   -> ((op result_or_-1)...) jump_abs_addr(minor, op, idx, arg) for op in 0..=255
 //!   (3 path)            -> declaration records of one .d.er file (see `decls`)
+//!   (6 (path...))       -> compiler_decls: declarations as loaded by the real compiler (see fn compiler_decls)
 //!   (5)                 -> magic_runs over the whole u16 domain (see fn magic_runs)
 //!   (4 minor src)       -> (0 (distinct opcode bytes at even offsets of all code objects)) | (1 msg) on compile error
 #[allow(dead_code)]
@@ -227,6 +228,116 @@ fn decls(path: &str) -> Sx {
     Sx::L(vec![z(nerr), Sx::L(out)])
 }
 
+/// C27 first path: the declarations as the REAL compiler loads them.
+/// input: list of import paths ("collections", "os/path", ...); one program `m0 = pyimport "collections"` ... is built with the
+/// package builder (real resolver, real declaration pipeline).  For every module reached — directly, or through a public
+/// attribute of module type of an already dumped module (package attribute such as `collections.abc`) — one record
+///   (qual via file (name...))      qual = dotted python path as a program writes it, via = "" or the qual it was reached from,
+///                                  file = the declaration file the compiler really loaded
+///   name = (erg_name py_name has_py public builtin def_in_this_file is_module module_file def_line)
+/// taken from the module context's dir(): VarInfo.py_name is what codegen emits for `m.erg_name`.
+fn compiler_decls(mods: Vec<String>) -> Sx {
+    use erg_compiler::artifact::Buildable;
+    let h = std::thread::Builder::new()
+        .stack_size(1024 * 1024 * 1024)
+        .spawn(move || {
+            let mut src = String::new();
+            for (i, m) in mods.iter().enumerate() {
+                src.push_str(&format!("m{i} = pyimport \"{m}\"\n"));
+            }
+            let cfg = ErgConfig::string(src.clone());
+            let mut b = erg_compiler::build_package::PackageBuilder::new(cfg.clone(), erg_compiler::module::SharedCompilerResource::new(cfg));
+            let nerr = match b.build(src, "exec") {
+                Ok(_) => 0,
+                Err(a) => a.errors.len() as i128,
+            };
+            let Some(mctx) = b.get_context() else {
+                return Sx::L(vec![z(-3)]);
+            };
+            let main = &mctx.context;
+            let mut out = vec![Sx::L(vec![z(nerr)])];
+            let mut queue: Vec<(String, String, erg_compiler::ty::Type, Vec<String>)> = vec![];
+            let top = main.dir();
+            for (i, m) in mods.iter().enumerate() {
+                let key = format!("m{i}");
+                let found = top.iter().find(|(k, _)| &k.inspect()[..] == key.as_str());
+                match found {
+                    Some((_, vi)) if vi.t.module_path().is_some() => {
+                        queue.push((m.replace('/', "."), String::new(), vi.t.clone(), vec![]))
+                    }
+                    _ => out.push(Sx::L(vec![
+                        Sx::from_str_cp(&m.replace('/', ".")),
+                        Sx::from_str_cp(""),
+                        Sx::from_str_cp("<not loaded>"),
+                        Sx::L(vec![]),
+                    ])),
+                }
+            }
+            let mut seen: std::collections::HashSet<(String, String)> = std::collections::HashSet::new();
+            let mut qi = 0;
+            while qi < queue.len() {
+                let (qual, via, t, chain) = queue[qi].clone();
+                qi += 1;
+                let Some(path) = t.module_path() else { continue };
+                let file = path.to_string_lossy().to_string();
+                if chain.contains(&file) || !seen.insert((qual.clone(), file.clone())) || qual.matches('.').count() > 4 {
+                    continue;
+                }
+                let Some(ctx) = main.get_mod_with_t(&t) else {
+                    out.push(Sx::L(vec![
+                        Sx::from_str_cp(&qual),
+                        Sx::from_str_cp(&via),
+                        Sx::from_str_cp(&format!("<no context> {file}")),
+                        Sx::L(vec![]),
+                    ]));
+                    continue;
+                };
+                let mut names = vec![];
+                for (k, vi) in ctx.dir().iter() {
+                    let erg = k.inspect().to_string();
+                    let public = vi.vis.modifier.is_public();
+                    let builtin = vi.kind.is_builtin();
+                    let here = vi
+                        .def_loc
+                        .module
+                        .as_ref()
+                        .map(|p| p.to_string_lossy() == file.as_str())
+                        .unwrap_or(false);
+                    let mp = vi.t.module_path();
+                    let py = vi.py_name.as_ref().map(|s| s.to_string());
+                    if public && !builtin {
+                        if let Some(_p) = &mp {
+                            let sub = py.clone().unwrap_or_else(|| erg.clone());
+                            let mut ch = chain.clone();
+                            ch.push(file.clone());
+                            queue.push((format!("{qual}.{sub}"), qual.clone(), vi.t.clone(), ch));
+                        }
+                    }
+                    names.push(Sx::L(vec![
+                        Sx::from_str_cp(&erg),
+                        Sx::from_str_cp(py.as_deref().unwrap_or("")),
+                        Sx::b(py.is_some()),
+                        Sx::b(public),
+                        Sx::b(builtin),
+                        Sx::b(here),
+                        Sx::b(mp.is_some()),
+                        Sx::from_str_cp(&mp.map(|p| p.to_string_lossy().to_string()).unwrap_or_default()),
+                        z(vi.def_loc.loc.ln_begin().unwrap_or(0) as i128),
+                    ]));
+                }
+                out.push(Sx::L(vec![
+                    Sx::from_str_cp(&qual),
+                    Sx::from_str_cp(&via),
+                    Sx::from_str_cp(&file),
+                    Sx::L(names),
+                ]));
+            }
+            Sx::L(out)
+        })
+        .unwrap();
+    h.join().unwrap_or(Sx::L(vec![z(-4)]))
+}
+
 fn ops_of(code: &CodeObj, acc: &mut std::collections::BTreeSet<u8>) {
     let mut i = 0;
     while i < code.code.len() {
@@ -271,6 +382,7 @@ fn main() {
         1 => magic(x.nth(1).z() as u32, x.nth(2).z() as u32),
         2 => jumps(x.nth(1).z() as u8, x.nth(2).z() as usize, x.nth(3).z() as usize),
         3 => decls(&x.nth(1).string()),
+        6 => compiler_decls(x.nth(1).l().iter().map(|m| m.string()).collect()),
         5 => magic_runs(),
         4 => compile(x.nth(1).z() as u8, x.nth(2).string()),
         _ => Sx::L(vec![z(-998)]),
